@@ -70,7 +70,7 @@ def run(chk) -> None:
     if nw is None:
         raise AnchorError("C31.R1: next_wakeup_timeout not found")
     rets = [r.value for r in ast.walk(nw) if isinstance(r, ast.Return) and r.value is not None]
-    ok = any("scheduled_wakeups[0]" in ast.unparse(expand(r, r, depth=2)) and "now" in ast.unparse(r) for r in rets)
+    ok = any(isinstance(x, ast.Subscript) and ast.unparse(x) == "self.scheduled_wakeups[0]" for x in ast.walk(nw)) and any(param(nw, 1) in ast.unparse(r) and isinstance(r, ast.Call) and call_name(r) == "max" for r in rets)
     chk.ob("C31.R1", "next_wakeup_timeout is the distance to the earliest heap entry", ok, m=m, node=nw, fn=nw, instance="timers:next-wakeup", reason=f"returns {[ast.unparse(r) for r in rets]}")
 
     # ---------------------------------------------------------------- R2 timeout scheduled and reduced
@@ -121,7 +121,10 @@ def run(chk) -> None:
     if mc is None:
         raise AnchorError("C31.R3: _process_cancel_run_tick not found")
     writes = [ast.unparse(n) for n in ast.walk(mc) if isinstance(n, ast.Attribute) and isinstance(n.ctx, (ast.Store, ast.Del))]
-    muts = [ast.unparse(c)[:40] for c in ast.walk(mc) if isinstance(c, ast.Call) and isinstance(c.func, ast.Attribute) and c.func.attr in ("clear", "pop", "remove", "append", "update") and "state" in ast.unparse(c.func.value)]
+    from ..astx import MUTATORS
+    local_lists = {s.targets[0].id for s in ast.walk(mc) if isinstance(s, ast.Assign) and isinstance(s.targets[0], ast.Name) and isinstance(s.value, (ast.List, ast.ListComp))} | \
+                  {s.target.id for s in ast.walk(mc) if isinstance(s, ast.AnnAssign) and isinstance(s.target, ast.Name) and isinstance(s.value, (ast.List, ast.ListComp))}
+    muts = [ast.unparse(c)[:40] for c in ast.walk(mc) if isinstance(c, ast.Call) and isinstance(c.func, ast.Attribute) and c.func.attr in MUTATORS and ast.unparse(c.func.value).split(".")[0].split("[")[0] not in local_lists]
     chk.ob("C31.R3", "cancellation leaves the run state untouched (queues, running work, collected events, waiters and the running flag stay resumable)", not writes and not muts, m=m, node=mc, fn=mc, instance="cancel:state-retained",
            reason=f"the cancel reducer modifies state: {writes + muts}")
     pubs = [published_event_class(c) for c in command_constructions(mc, "CommandPublishEvent")]
